@@ -210,6 +210,11 @@ func emitQueries(r *vlib.R, u *universe, emit func(string), k int) int {
 				continue
 			}
 		}
+		if r.Chance(1, 8) {
+			emit("bl get " + enc(q))
+			n++
+			continue
+		}
 		emit("bl exists " + enc(q))
 		n++
 	}
@@ -267,26 +272,36 @@ func genMatchCase(r *vlib.R, emit func(string)) int {
 	}
 	emit(fmt.Sprintf("bl new %s %s %s %s %s", n4, n6, encList(white), encList(cfgbl), file))
 	n := 1
+	n += emitViaAPI(r, u, emit)
 	for _, e := range api {
 		emit("bl set " + enc(e))
 		n++
 	}
 	n += emitQueries(r, u, emit, 6+r.Intn(8))
 	// churn: remove / re-add / batches, then ask again
-	if r.Chance(1, 2) {
-		for i := 0; i < 1+r.Intn(3); i++ {
+	if r.Chance(1, 2) || (cs != nil && cs.api != nil) {
+		for i := 0; i < 1+r.Intn(3)+apiExtra(); i++ {
 			e, _ := u.entry(r, vlib.Pick(r, []string{"plain", "wild"}))
 			switch r.Intn(4) {
 			case 0:
-				emit("bl remove " + enc(e))
+				emit("bl remove " + enc(removalTargets(r, u, 1)[0]))
 			case 1:
 				emit("bl set " + enc(e))
 			case 2:
 				emit("bl setbatch " + encList(append(genEntries(r, u, "plain", 2), e)))
 			default:
-				emit("bl removebatch " + encList(append(genEntries(r, u, "wild", 2), e)))
+				emit("bl removebatch " + encList(removalTargets(r, u, 1+r.Intn(3))))
 			}
 			n++
+			if cs != nil && cs.api != nil && cs.apiToken != "" && r.Chance(1, 2) {
+				// the same kind of request without the token, aimed at something that would change
+				if p := presentEntry(r); p != "" && r.Bool() {
+					emit("bl apideny " + vlib.Pick(r, []string{"remove " + enc(p), "removebatch " + encList([]string{p})}))
+				} else {
+					emit("bl apideny " + vlib.Pick(r, []string{"set " + enc("denied."+e), "setbatch " + encList([]string{"denied." + e})}))
+				}
+				n++
+			}
 		}
 		emit("bl state")
 		n += 1 + emitQueries(r, u, emit, 3+r.Intn(5))
@@ -347,6 +362,7 @@ func genPersistCase(r *vlib.R, emit func(string)) int {
 	}
 	emit(fmt.Sprintf("bl new 0.0.0.0 :: %s _ %s", encList(white), file))
 	n := 1
+	n += emitViaAPI(r, u, emit)
 	var pending []uint64
 	steps := 4 + r.Intn(10)
 	for i := 0; i < steps; i++ {
@@ -379,11 +395,11 @@ func genPersistCase(r *vlib.R, emit func(string)) int {
 		case 0, 1, 2:
 			op = "set " + enc(e)
 		case 3, 4:
-			op = "remove " + enc(e)
+			op = "remove " + enc(removalTargets(r, u, 1)[0])
 		case 5:
 			op = "setbatch " + encList(append(genEntries(r, u, "plain", 2), e))
 		case 6:
-			op = "removebatch " + encList(append(genEntries(r, u, "plain", 2), e))
+			op = "removebatch " + encList(removalTargets(r, u, 1+r.Intn(3)))
 		default:
 			op = "set " + enc(mixCase(r, e))
 		}
@@ -523,7 +539,108 @@ func stagingText(r *vlib.R, u *universe) string {
 	return enc(full[:cut])
 }
 
+// presentEntry: an entry memory holds right now, as an operator would write it
+// ("" if the list is empty) - removals of absent names are no-ops.
+func presentEntry(r *vlib.R) string {
+	m, wild := memLists()
+	n := len(m) + len(wild)
+	if n == 0 {
+		return ""
+	}
+	i := r.Intn(n)
+	var e string
+	if i < len(m) {
+		e = m[i]
+	} else {
+		e = "*." + wild[i-len(m)]
+	}
+	if r.Chance(1, 3) && len(e) > 1 {
+		e = e[:len(e)-1]
+	}
+	if r.Chance(1, 4) {
+		e = mixCase(r, e)
+	}
+	return e
+}
+
+// removalTargets: 1-3 names to remove, mostly present ones, the LAST one present if possible.
+func removalTargets(r *vlib.R, u *universe, k int) []string {
+	var out []string
+	for i := 0; i < k; i++ {
+		if e := presentEntry(r); e != "" && (i == k-1 || r.Chance(2, 3)) {
+			out = append(out, e)
+			continue
+		}
+		e, _ := u.entry(r, vlib.Pick(r, []string{"plain", "wild"}))
+		out = append(out, e)
+	}
+	return out
+}
+
+func apiExtra() int {
+	if cs != nil && cs.api != nil {
+		return 3
+	}
+	return 0
+}
+
+// apiBudget bounds the cases that talk through the HTTP API (each starts a listener).
+var apiBudget int
+
+func emitViaAPI(r *vlib.R, u *universe, emit func(string)) int {
+	if apiBudget <= 0 || !r.Chance(1, 4) {
+		return 0
+	}
+	apiBudget--
+	tok := vlib.Pick(r, []string{"-", "s3cret", "tok-" + fmt.Sprint(r.Intn(1000))})
+	emit("bl viaapi " + tok)
+	n := 1
+	if tok != "-" {
+		for i := 0; i < 1+r.Intn(3); i++ {
+			e, _ := u.entry(r, vlib.Pick(r, []string{"plain", "wild"}))
+			switch r.Intn(5) {
+			case 0:
+				emit("bl apideny set " + enc(e))
+			case 1:
+				emit("bl apideny remove " + enc(e))
+			case 2:
+				emit("bl apideny setbatch " + encList([]string{e, "x." + e}))
+			case 3:
+				emit("bl apideny removebatch " + encList([]string{e}))
+			default:
+				emit("bl apideny " + vlib.Pick(r, []string{"exists", "get"}) + " " + enc(e))
+			}
+			n++
+		}
+	}
+	if r.Chance(1, 2) {
+		emit("bl apiempty " + vlib.Pick(r, []string{"setbatch", "removebatch"}))
+		n++
+	}
+	return n
+}
+
+// mainText: the main file as it is on disk right now ("_" = none).
+func mainText() string {
+	if cs == nil {
+		return "_"
+	}
+	data, err := os.ReadFile(cs.localPath())
+	if err != nil {
+		return "_"
+	}
+	if len(data) == 0 {
+		return "-"
+	}
+	return enc(string(data))
+}
+
 func emitDirLoad(r *vlib.R, u *universe, emit func(string)) int {
+	if r.Chance(1, 3) {
+		// the same moment, but the process is killed and restarted instead
+		emit("bl restart " + mainText() + " " + stagingText(r, u))
+		return 1
+	}
 	emit("bl dirload " + stagingText(r, u))
 	return 1
 }
@@ -577,19 +694,27 @@ func gen(r *vlib.R, n int, tier string, emit func(string)) {
 	emit("bl set " + enc("staged.example.net"))
 	emit("bl dirload " + enc(header+"\nexample.com.\nstaged.exam"))
 	emit("bl dirload _")
+	emit("bl restart " + mainText() + " " + enc(header+"\nexample.com.\nstag"))
+	emit("bl restart " + mainText() + " " + enc(header+"\n"))
+	emit("bl restart " + mainText() + " _")
 	emit("bl set " + enc("after.example.net"))
 	emit("bl reload")
 	crashes, concs := 14, 12
 	raceBudget = 8
+	apiBudget = 40
 	if tier == "thorough" {
 		crashes, concs = 150, 300
 		raceBudget = 100
+		apiBudget = 600
 	}
 	// fixed witness of the persist race (both start orders)
 	emit("bl new 0.0.0.0 :: _ _ _")
 	emit("bl persistrace hl " + enc("low.example.com") + " " + enc("high.example.com"))
 	emit("bl persistrace lh " + enc("low2.example.com") + " " + enc("high2.example.com"))
 	emit("bl state")
+	if tier == "thorough" {
+		genExhaustive(emit)
+	}
 	every := n / (crashes + 1)
 	everyC := n / (concs + 1)
 	nextCrash, nextConc := every, everyC/2
@@ -608,6 +733,36 @@ func gen(r *vlib.R, n int, tier string, emit func(string)) {
 			done += genMatchCase(r, emit)
 		default:
 			done += genPersistCase(r, emit)
+		}
+	}
+}
+
+// genExhaustive: every combination of plain / wildcard / whitelist entries over a
+// small tree of names, each asked about every name of the tree and its near misses.
+func genExhaustive(emit func(string)) {
+	plainU := []string{"a.", "b.a.", "c.b.a.", "x.a."}
+	wildU := []string{"*.a.", "*.b.a."}
+	whiteU := []string{"b.a.", "c.b.a."}
+	queries := []string{"a.", "b.a.", "c.b.a.", "d.c.b.a.", "x.a.", "y.x.a.", "xb.a.", "B.A", "b\\.a.", "a.a.", "."}
+	sub := func(u []string, mask int) []string {
+		var out []string
+		for i, e := range u {
+			if mask&(1<<i) != 0 {
+				out = append(out, e)
+			}
+		}
+		return out
+	}
+	for p := 0; p < 1<<len(plainU); p++ {
+		for w := 0; w < 1<<len(wildU); w++ {
+			for wh := 0; wh < 1<<len(whiteU); wh++ {
+				cfg := append(sub(plainU, p), sub(wildU, w)...)
+				emit(fmt.Sprintf("bl new 0.0.0.0 :: %s %s _", encList(sub(whiteU, wh)), encList(cfg)))
+				for _, q := range queries {
+					emit("bl exists " + enc(q))
+				}
+				emit("bl state")
+			}
 		}
 	}
 }
